@@ -791,6 +791,28 @@ def check_diagnostics(ctx, F):
             else:
                 pz = possibly_zero_divisors(F, o)
                 ctx.bad('R4', role, o.defpath, 'differs from the trait default: ' + dageq.diff(fd, fo) + (' ; possibly-zero divisor %s' % pz[0][1] if pz else ''), key=k2, loc=rules.loc(o))
+    # the floating-point view of a single probability is a provided method of EncoderModel: an impl that overrides it is held to
+    # the same standard (equal to the default, or a forward) - the default reads the exact fixed-point probability off
+    # left_cumulative_and_probability, a "cheaper" recomputation from stored floats does not
+    etrait = 'stream::model::EncoderModel'
+    for name in ('floating_point_probability',):
+        dflt = [b for b in F.bodies if b.promoted is None and b.trait == etrait and b.name == name and b.impl is None]
+        if not dflt:
+            ctx.unresolved('R4', 'overriding view equals the trait default (or forwards)', etrait + '::' + name, 'default body not found', key='R4/override/%s::%s' % (etrait, name))
+            continue
+        fd = dageq.fingerprint(dflt[0])
+        ctx.touch(dflt[0])
+        for o in [b for b in F.bodies if b.promoted is None and b.impl_trait == etrait and b.name == name and b.impl is not None and '::tests::' not in b.defpath]:
+            n_over += 1
+            ctx.touch(o)
+            k2 = 'R4/override/%s' % o.defpath
+            role = 'overriding view equals the trait default (or forwards)'
+            if _is_forward(o, etrait, name):
+                ctx.ok('R4', role, o.defpath, 'forwards to (*self).%s()' % name, key=k2)
+            elif dageq.fingerprint(o) == fd:
+                ctx.ok('R4', role, o.defpath, 'structurally identical to the default', key=k2)
+            else:
+                ctx.bad('R4', role, o.defpath, 'overrides the provided floating-point view with a different computation: the default is the exact fixed-point probability (from left_cumulative_and_probability) divided by 2^PRECISION; ' + dageq.diff(fd, dageq.fingerprint(o))[:300], key=k2, loc=rules.loc(o))
     # inherent entropy_base2 of the hash-map encoder model
     for b in [b for b in F.bodies if b.promoted is None and b.name == 'entropy_base2' and b.impl_trait is None and b.dk == 'AssocFn' and b.trait is None]:
         pz = possibly_zero_divisors(F, b)
